@@ -154,7 +154,7 @@ def bounds(tier):
         "bin specifications for the multisets of the longest length": [[n, a, b] for n, a, b in MULTISET_SPECS[tier]],
         "recorder bin specifications": REC_SPECS,
         "LoadHistogram geometries": list(LH_GEOMS), "class location": ["mid", "left", "right"],
-        "rebin": {"sources": rb["sources"], "counts": "all vectors over %s" % (rb["counts"],), "targets (IntervalIndex)": rb["targets"],
+        "rebin": {"sources": rb["sources"], "counts": "all vectors over %s" % (rb["counts"],), "count dtypes": ["float64", "int64"], "targets (IntervalIndex)": rb["targets"],
                   "targets (int)": rb["ints"], "compose": "all (B1, B2) of the target list with B1 refining B2",
                   "2-D source": REBIN2D_SRC, "2-D targets": REBIN2D_TGT},
         "combine": {"binnings": COMBINE_BINNINGS, "counts": "all vectors over (0, 1, 5)", "lists": "all ordered pairs"
@@ -682,9 +682,9 @@ def eval_lh(case, acc=None):
 
 
 # ------------------------------------------------------------------------------------------------ rebin / combine
-def _hist1d(edges, counts, name=None):
+def _hist1d(edges, counts, name=None, dtype="float64"):
     import pandas as pd
-    return pd.Series([float(c) for c in counts], index=pd.IntervalIndex.from_breaks([float(e) for e in edges], name=name))
+    return pd.Series([float(c) for c in counts], index=pd.IntervalIndex.from_breaks([float(e) for e in edges], name=name)).astype(dtype)
 
 
 def _tgt_class(spec):
@@ -700,7 +700,8 @@ def eval_rebin(case, acc=None):
     from pylife.utils.histogram import rebin_histogram
     src, counts, tgt, via = case["src"], case["counts"], case["tgt"], case.get("via")
     viol = []
-    h = _hist1d(src, counts)
+    # dtype "int64": cycle counts as range_histogram() and sums of such histograms deliver them
+    h = _hist1d(src, counts, dtype=case.get("dtype", "float64"))
     site = "rebin_histogram/%s" % _tgt_class(tgt)
     r = _call(site, lambda: rebin_histogram(h, _bins(tgt)), viol, case)
     if acc is not None:
@@ -910,9 +911,11 @@ def run_shard(shard):
             for tgt in rb["targets"]:
                 cuts = any(e not in src for e in tgt if src[0] < e < src[-1])
                 _run(acc, {"kind": "rebin", "src": src, "counts": counts, "tgt": II(tgt)}, cuts)
+                _run(acc, {"kind": "rebin", "src": src, "counts": counts, "tgt": II(tgt), "dtype": "int64"}, cuts)
                 for via in rb["targets"]:
                     if via != tgt and ref.refines(via, tgt) and ref.covers(via, src):
                         _run(acc, {"kind": "rebin", "src": src, "counts": counts, "tgt": II(tgt), "via": via}, True)
+                        _run(acc, {"kind": "rebin", "src": src, "counts": counts, "tgt": II(tgt), "via": via, "dtype": "int64"}, True)
             for n in rb["ints"]:
                 _run(acc, {"kind": "rebin", "src": src, "counts": counts, "tgt": I(n)}, n != len(src) - 1)
         acc.sample({"kind": "rebin", "source": src, "first_counts": cvs[0], "targets": len(rb["targets"]) + len(rb["ints"])})
